@@ -10,6 +10,25 @@ CHECKS = {
    text="Generated one-sided operation histories (all four id/path provider flavours, arbitrary interleaving of single production-loop iterations) are executed against the real engine and compared with a pure reference tree at every quiet point; the origin side is snapshotted around every engine step and the engine's provider call log must stay silent after quiet. No counter-example in the explored domain is the claim; absence is not established.",
    note="Trusted: mock providers as stand-ins for accounts, harness shims (virtual clock, deterministic ids/hash order), reference tree model. Domain narrowed by the hazards listed in evidence.assumptions (open known findings)."),
 }
+E_NOTE = "Trusted: mock providers as stand-ins for accounts, harness shims (virtual clock, deterministic ids/hash order), reference tree model. Domain narrowed by the hazards listed in evidence.assumptions (each backed by an open known finding with a replayed witness)."
+CHECKS.update({
+ "C01": dict(engine="E-engine-harness", category="exploration", design_ref="2/C01",
+   technique="property-based testing: Hypothesis-generated two-sided histories (hazard-free background ops + pure conflict-gadget catalogue) executed step-by-step against the real engine; oracle = convergence predicate modulo '.conflicted' + step-bounded quiescence; trace-level ddmin",
+   text="Generated two-sided histories over four id/path provider flavours with arbitrary interleavings of single production-loop iterations; at every quiet point both roots must be equal modulo '.conflicted' names and quiet must be reached within 400 rounds. Sampling, not absence; the statement is known to be false outside the hazard envelope (open known findings are replayed and reported).",
+   note=E_NOTE),
+ "C02": dict(engine="E-engine-harness", category="exploration", design_ref="2/C02",
+   technique="property-based testing: generated conflict gadgets and injected CloudCorruptError; oracle = version-survival invariant over the whole history (every unreleased user-written content present somewhere), per-gadget outcome predicates, call-log invariant for the good copy of a corrupt file",
+   text="Every content version users wrote is tracked; 'released' is decided from what the user actually deleted/overwrote at the provider. At every quiet point each unreleased version must be the content of some file; edit/edit and create/create conflicts must keep winner at the path and loser in a '.conflicted' sibling; an edit must survive a concurrent delete; the good copy of a corrupt file must never be mutated by the engine.",
+   note=E_NOTE),
+ "C04": dict(engine="E-engine-harness", category="exploration", design_ref="2/C04",
+   technique="property-based testing: Hypothesis-generated two-sided histories with per-window disjointness enforced by construction; oracle = reference merged tree (base + opsL + opsR) compared at every quiet point",
+   text="Both sides change disjoint objects concurrently; because the generator enforces disjointness per window the expected merged tree is well defined and both roots must equal it exactly (no resurrection, no duplication, no '.conflicted').",
+   note=E_NOTE),
+ "C13": dict(engine="path-laws", category="exploration", design_ref="2/C13",
+   technique="bounded-exhaustive enumeration of all strings over a 9-character alphabet (5 path conventions) plus Hypothesis long unicode paths, against a table of algebraic laws (idempotence, round-trip, metamorphic prefix/replace relations, equivalence-relation axioms, translate round-trip)",
+   text="Every law of the statement is evaluated on every string up to the length bound (exhaustive: true for that finite domain, ~12M evaluations in the quick tier) and on generated long paths; helpers raising on any string is a violation.",
+   note="Trusted: the law table itself (transcribed from the statement); MockProvider subclasses only supply sep/alt_sep/case/win_paths to the Provider helpers under test."),
+})
 NOT_YET = {}
 
 def main():
